@@ -16,6 +16,7 @@ import (
 	"github.com/itchyny/gojq"
 	"github.com/itchyny/gojq/cli"
 
+	"verif/sim/kernel"
 	"verif/sim/seams/simio"
 )
 
@@ -30,6 +31,7 @@ type Source struct {
 type Scenario struct {
 	Flags     []string       `json:"flags"`              // output/input mode flags
 	Indent    int            `json:"indent"`             // with --indent
+	Spell     uint64         `json:"spell,omitempty"`    // != 0: the flags are spelled another way (long names, bundled short flags, --flag=value), seeded by this
 	PreArgs   []string       `json:"pre_args"`           // --arg etc. before the query
 	Query     string         `json:"query"`              // query text
 	FromFile  bool           `json:"from_file"`          // pass the query with -f
@@ -85,12 +87,40 @@ func scratch() string {
 	return scratchDir
 }
 
+var longNames = map[string]string{"-c": "--compact-output", "-r": "--raw-output", "-j": "--join-output", "-n": "--null-input", "-s": "--slurp", "-e": "--exit-status", "-R": "--raw-input"}
+
+func isShortBundle(a string) bool {
+	if len(a) < 2 || a[0] != '-' || a[1] == '-' {
+		return false
+	}
+	for _, c := range a[1:] {
+		if !(c >= 'a' && c <= 'z' || c >= 'A' && c <= 'Z') {
+			return false
+		}
+	}
+	return true
+}
+
 func (sc *Scenario) argv() []string {
 	var args []string
+	var sp *kernel.Rand
+	if sc.Spell != 0 {
+		sp = kernel.NewRand(sc.Spell)
+	}
 	for _, f := range sc.Flags {
-		args = append(args, f)
-		if f == "--indent" {
-			args = append(args, fmt.Sprint(sc.Indent))
+		switch {
+		case f == "--indent":
+			if sp != nil && sp.Bool(0.5) {
+				args = append(args, "--indent="+fmt.Sprint(sc.Indent))
+			} else {
+				args = append(args, f, fmt.Sprint(sc.Indent))
+			}
+		case sp != nil && longNames[f] != "" && sp.Bool(0.3):
+			args = append(args, longNames[f])
+		case sp != nil && longNames[f] != "" && len(args) > 0 && isShortBundle(args[len(args)-1]) && sp.Bool(0.6):
+			args[len(args)-1] += f[1:] // -c -r spelled -cr
+		default:
+			args = append(args, f)
 		}
 	}
 	aux := map[string]string{}
@@ -99,11 +129,26 @@ func (sc *Scenario) argv() []string {
 		os.WriteFile(p, []byte(f.Text), 0o644)
 		aux["@@"+f.Name] = p
 	}
-	for _, a := range sc.PreArgs {
+	sub := func(a string) string {
 		if p, ok := aux[a]; ok {
-			a = p
+			return p
 		}
-		args = append(args, a)
+		return a
+	}
+	for i := 0; i < len(sc.PreArgs); i++ {
+		a := sc.PreArgs[i]
+		if (a == "--arg" || a == "--argjson" || a == "--slurpfile" || a == "--rawfile") && i+2 < len(sc.PreArgs) {
+			// a binding flag with its name and value (which may themselves look like flags)
+			name, val := sc.PreArgs[i+1], sub(sc.PreArgs[i+2])
+			i += 2
+			if sp != nil && sp.Bool(0.4) {
+				args = append(args, a+"="+name, val) // --arg=name value
+			} else {
+				args = append(args, a, name, val)
+			}
+			continue
+		}
+		args = append(args, sub(a))
 	}
 	if sc.NoQuery {
 		// nothing
@@ -338,7 +383,7 @@ func (sc *Scenario) modelItems() []item {
 			vs = append(vs, it.val)
 		}
 		if vs == nil {
-			vs = []any(nil)
+			vs = []any{}
 		}
 		return []item{{val: vs}}
 	}
